@@ -23,7 +23,7 @@ const FEATURES: [&str; 9] = [
 ];
 
 fn run_xz(data: &[u8], rk: ReaderKind) -> (Verdict, Vec<u8>) {
-    let sink = SharedSink::new();
+    let sink = SharedSink::varied(case_hash(&[data]) >> 8, data.len() * 8);
     let obs = sut::new_obs(u64::MAX);
     let c = sut::decode(Entry::Xz, data, &sut::default_options(), rk, &sink, &obs);
     (c.verdict, sink.bytes())
